@@ -179,7 +179,7 @@ def run(tier, rep):
     pure_half(tier, rep)
     shards = 4 if tier == "quick" else 12
     args = [{"shard": i, "tier": tier, "policies": 4 if tier == "quick" else 20, "requests": 150 if tier == "quick" else 500} for i in range(shards)]
-    for res in sandbox.run_many("vf.props.c03", "worker", args, workers=shards, timeout=900):
+    for res in sandbox.run_many("vf.props.c03", "worker", args, workers=shards, timeout=900 if tier == "quick" else 5400):
         rep.merge_worker(res)
     if rep.coverage.get("control_forwarded", 0) == 0 and not rep.violations:
         rep.inconclusive.append("no control request was forwarded (harness problem)")
